@@ -216,6 +216,10 @@ func (c *conn) statement(kind, query string, named []driver.NamedValue) (*result
 	}
 	args := engineArgs(named)
 	idx, e, injected, drop := c.srv.begin(c, kind, query, args)
+	var inRows *rowFault
+	if rf, ok := injected.(*rowFault); ok {
+		inRows, injected = rf, nil
+	}
 	if injected != nil {
 		if drop {
 			c.kill()
@@ -235,6 +239,16 @@ func (c *conn) statement(kind, query string, named []driver.NamedValue) (*result
 	}
 	for i := range writes {
 		writes[i].Stmt = e.Seq
+	}
+	if inRows != nil && err == nil {
+		if rs == nil {
+			rs = &resultSet{}
+		}
+		cp := *rs
+		cp.failErr, cp.failAfter = inRows.err, inRows.after
+		rs = &cp
+		c.srv.finish(idx, e.Seq, fmt.Errorf("while streaming the rows: %v", inRows.err), aff, rows, writes, true)
+		return rs, res, nil
 	}
 	c.srv.finish(idx, e.Seq, err, aff, rows, writes, false)
 	return rs, res, err
@@ -496,6 +510,9 @@ func formatFloat(c *Column, f float64) string {
 
 func (r *rows) Next(dest []driver.Value) error {
 	r.scribble()
+	if r.rs.failErr != nil && r.i >= r.rs.failAfter {
+		return r.rs.failErr
+	}
 	if r.i >= len(r.rs.rows) {
 		return io.EOF
 	}
